@@ -111,6 +111,17 @@ class SpecMixin:
         b = self.truthy(self.ev(node.args[1], st, ctx), st)
         return mk_bool(a == b)
 
+    def spec_let(self, node, st, ctx):
+        """let(value, lambda x: body)"""
+        v = self.ev(node.args[0], st, ctx)
+        lam = node.args[1]
+        st2 = st.copy()
+        st2.locals[lam.args.args[0].arg] = v
+        r = self.ev(lam.body, st2, ctx)
+        for f in st2.pc[len(st.pc):]:
+            st.assume(f)
+        return r
+
     def spec_ite(self, node, st, ctx):
         c = self.truthy(self.ev(node.args[0], st, ctx), st)
         return self.ite(c, self.ev(node.args[1], st, ctx), self.ev(node.args[2], st, ctx), st)
@@ -183,6 +194,12 @@ class SpecMixin:
     def spec_is_bool(self, node, st, ctx):
         return mk_bool(Val.is_VBool(box(self.ev(node.args[0], st, ctx))))
 
+    def spec_is_real(self, node, st, ctx):
+        return mk_bool(Val.is_VReal(box(self.ev(node.args[0], st, ctx))))
+
+    def spec_as_real(self, node, st, ctx):
+        return mk_real(Val.r(box(self.ev(node.args[0], st, ctx))))
+
     def spec_is_none(self, node, st, ctx):
         return mk_bool(self.is_none(self.ev(node.args[0], st, ctx)))
 
@@ -217,6 +234,31 @@ class SpecMixin:
         if ctx.old is None:
             raise StaleContract("fresh() needs an old state")
         return mk_bool(z3.And(ctx.old.alloc <= x.t, x.t < st.alloc))
+
+    def list_mem(self, st, lty, ref):
+        """MEM(n, e): the set of values stored in a list, as an array to Bool; definitional facts are added once
+        per distinct (length, element array) pair: (A) every element is a member, (B) every member has an index"""
+        n = st.list_len(lty, ref)
+        e = st.list_elems(lty, ref)
+        es = lty.args[0].sort()
+        MEM = self.uf("MEM_" + str(es), [I, z3.ArraySort(I, es)], z3.ArraySort(es, B))
+        WIT = self.uf("WIT_" + str(es), [I, z3.ArraySort(I, es), es], I)
+        m = MEM(n, e)
+        key = ("mem", n.get_id(), e.get_id())
+        if key not in self._memfacts:
+            self._memfacts.add(key)
+            j = z3.Int(fresh_name("j"))
+            x = z3.Const(fresh_name("x"), es)
+            self.facts.append(z3.ForAll([j], z3.Implies(z3.And(0 <= j, j < n), m[e[j]]), patterns=[e[j]]))
+            self.facts.append(z3.ForAll([x], z3.Implies(m[x], z3.And(0 <= WIT(n, e, x), WIT(n, e, x) < n,
+                                                                     e[WIT(n, e, x)] == x)), patterns=[m[x]]))
+        return m
+
+    def spec_in_list(self, node, st, ctx):
+        x = self.ev(node.args[0], st, ctx)
+        l = self.ev(node.args[1], st, ctx)
+        xv = self.coerce(x, l.ty.args[0], st)
+        return mk_bool(self.list_mem(st, l.ty, l.t)[xv.t])
 
     def spec_distinct_rows(self, node, st, ctx):
         l = self.ev(node.args[0], st, ctx)
@@ -411,12 +453,12 @@ class SpecMixin:
             n = pre.list_len(lsv.ty, lsv.t)
             e = pre.list_elems(lsv.ty, lsv.t)
             r, j = z3.Int(fresh_name("r")), z3.Int(fresh_name("j"))
+            mem = self.list_mem(pre, lsv.ty, lsv.t)
             for name, sort in self.arrays_of(ety, pre):
                 old = pre.arr(name, sort)
                 new = z3.Const(fresh_name(name), sort)
                 st.set_arr(name, new)
-                st.assume(z3.ForAll([r], z3.Implies(z3.Not(z3.Exists([j], z3.And(0 <= j, j < n, e[j] == r))),
-                                                    new[r] == old[r])))
+                st.assume(z3.ForAll([r], z3.Implies(z3.Not(mem[r]), new[r] == old[r]), patterns=[new[r]]))
                 self.canon_assume(name, new, st)
             return
         sv = self.ev_spec_value(m, self.callee_state(pre, params))
